@@ -2,17 +2,18 @@
 """runmut.py <diff> [property ...]: apply a seeded change to /repo, check it compiles, run the quick
 check(s), revert.  Prints one line per property: CAUGHT / MISSED / INCONCLUSIVE."""
 import subprocess, sys, os, re, time, signal
+R = os.environ.get("VERIF_REPO", "/repo")   # checks honour VERIF_REPO too (inherited environment)
 signal.signal(signal.SIGTERM, lambda *a: sys.exit(143))
 diff = os.path.abspath(sys.argv[1])
 props = sys.argv[2:] or [re.match(r'(C\d+)', os.path.basename(diff)).group(1)]
 def sh(cmd, **kw): return subprocess.run(cmd, shell=True, capture_output=True, text=True, **kw)
-st = sh('git -C /repo status --porcelain').stdout.strip()
+st = sh('git -C %s status --porcelain' % R).stdout.strip()
 if st:
     print('repo not clean:', st); sys.exit(2)
-r = sh('git -C /repo apply %s' % diff)
+r = sh('git -C %s apply %s' % (R, diff))
 if r.returncode: print('apply failed', r.stderr); sys.exit(2)
 try:
-    b = sh('cd /repo && GOFLAGS=-mod=mod GOPROXY=off go build ./... && GOFLAGS=-mod=mod GOPROXY=off go vet ./pkg/storage/... >/dev/null 2>&1; GOFLAGS=-mod=mod GOPROXY=off go build ./...')
+    b = sh('cd ' + R + ' && GOFLAGS=-mod=mod GOPROXY=off go build ./... && GOFLAGS=-mod=mod GOPROXY=off go vet ./pkg/storage/... >/dev/null 2>&1; GOFLAGS=-mod=mod GOPROXY=off go build ./...')
     if b.returncode: print('does not compile', b.stderr[-2000:]); sys.exit(2)
     for p in props:
         t0 = time.time()
@@ -23,4 +24,4 @@ try:
         for l in lines[:4]: print('   ', l[:300])
         if '-v' in os.environ.get('MUTV', ''): print(c.stdout[-3000:])
 finally:
-    sh('git -C /repo checkout -- .')
+    sh('git -C %s checkout -- .' % R)
